@@ -206,6 +206,8 @@ class PairModel:
         L1raw = (Dfull - Dref + sym(db.T @ eta0) * 2 + sym(db.T @ (eta - eta0)) - sym(eta0.T @ dom @ eta)) / N
         blocking = sum(pS[i] * ell[i] for i in range(N)) / N
         return {'L0vv': L0vv, 'Lss': Lss, 'Lsv': Lsv, 'L1vv_raw': L1raw, 'L1vv': L1raw + blocking,
+                'Lsv_unsym': (-D0ss + bSv.T @ eta) / N,    # <solute_a vacancy_b>: first index solute, second vacancy
+
                 'uniform_solute': bool(np.allclose(pS, 1.0, atol=1e-12)), 'nstates': S, 'gf_residual': resid,
                 'asym': float(max(np.abs(bSv.T @ etaS - (bSv.T @ etaS).T).max(), np.abs(bSv.T @ eta - (bSv.T @ eta).T).max()))}
 
@@ -325,4 +327,4 @@ def torus_chain(model, nsuper, bFV, bFS, bFSV, bFT0, bFT1, bFT2):
     Lvv_full = Dfull + sym(bV[keep].T @ gk @ bV[keep])
     Lvv_ref = Dref + sym(b0.T @ g0 @ b0)
     L1raw = (Lvv_full - Lvv_ref) / N
-    return {'Lss': Lss, 'Lsv': Lsv, 'L1vv_raw': L1raw, 'L0vv_ref': Lvv_ref / (N * N * M), 'nconfig': int(keep.sum())}
+    return {'Lss': Lss, 'Lsv': Lsv, 'Lsv_unsym': (-D0ss + bS[keep].T @ gk @ bV[keep]) / N, 'L1vv_raw': L1raw, 'L0vv_ref': Lvv_ref / (N * N * M), 'nconfig': int(keep.sum())}
